@@ -370,6 +370,8 @@ enum EvSpec {
     Failing(Box<EvSpec>, usize),
     /// the event, but `out` takes only this many bytes per `write` call and interrupts every other call
     Short(Box<EvSpec>, usize),
+    /// `handler = handler.quiet()`: the builder applied to a handler that may already have drawn
+    Quiet,
     /// not a handler call: NOW take `images[k].crop(r0..r1, c0..c1)` and append it to the list of images
     /// (images derived from an image that the handler may already have seen)
     Derive(usize, usize, usize, usize, usize),
@@ -401,6 +403,7 @@ impl EvSpec {
             EvSpec::Failing(inner, k) => json!(["w", k, inner.to_json()]),
             EvSpec::Derive(k, r0, r1, c0, c1) => json!(["c", k, r0, r1, c0, c1]),
             EvSpec::Short(inner, n) => json!(["s", n, inner.to_json()]),
+            EvSpec::Quiet => json!(["q"]),
             EvSpec::Draw(k, r, c) => json!(["d", k, r, c]),
             EvSpec::Erase(k, Some((r, c))) => json!(["e", k, r, c]),
             EvSpec::Erase(k, None) => json!(["e", k]),
@@ -417,6 +420,7 @@ impl EvSpec {
             "e" if a.len() == 4 => EvSpec::Erase(n(1)?, Some((n(2)?, n(3)?))),
             "e" => EvSpec::Erase(n(1)?, None),
             "c" => EvSpec::Derive(n(1)?, n(2)?, n(3)?, n(4)?, n(5)?),
+            "q" => EvSpec::Quiet,
             "s" => EvSpec::Short(Box::new(EvSpec::from_json(&a[2])?), n(1)?),
             "w" => EvSpec::Failing(Box::new(EvSpec::from_json(&a[2])?), n(1)?),
             "rf" => EvSpec::RespForeign(a[1].as_i64().filter(|j| *j >= 0).map(|j| j as usize), a[2].as_str()?.parse().ok()?),
@@ -569,6 +573,15 @@ fn response_event(k: usize, id: u64, placement: Option<u64>, error: bool) -> Res
     }
 }
 
+/// an event is about to be inserted at index `at`: event indices `>= at` held by responses move up by one
+fn shift_refs(ev: &mut EvSpec, at: usize) {
+    match ev {
+        EvSpec::Resp(Some(j), ..) | EvSpec::RespForeign(Some(j), _) if *j >= at => *j += 1,
+        EvSpec::Failing(inner, _) | EvSpec::Short(inner, _) => shift_refs(inner, at),
+        _ => {}
+    }
+}
+
 /// run a history on a fresh `KittyImageHandler`
 fn run_impl(hist: &History, imgs: &mut Vec<Image>) -> Result<Vec<StepOut>, &'static str> {
     // ---- run the implementation -------------------------------------------------------------
@@ -580,6 +593,12 @@ fn run_impl(hist: &History, imgs: &mut Vec<Image>) -> Result<Vec<StepOut>, &'sta
         let mut wr = Limited { buf: Vec::new(), budget: ev.budget(), refused: false, short: ev.short(), calls: 0 };
         let ev = ev.base();
         let mut resp = None;
+        if let EvSpec::Quiet = ev {
+            handler = handler.quiet();
+            observed.push(None);
+            steps.push(StepOut { err: false, truncated: false, bytes: Vec::new(), handled: None, resp: None });
+            continue;
+        }
         if let EvSpec::Derive(k, r0, r1, c0, c1) = ev {
             let parent = imgs.get(*k).ok_or("derive refers to an image that does not exist yet")?;
             let d = guarded(|| parent.crop(*r0..*r1, *c0..*c1)).map_err(|_| "Image::crop panicked")?;
@@ -610,7 +629,7 @@ fn run_impl(hist: &History, imgs: &mut Vec<Image>) -> Result<Vec<StepOut>, &'sta
                 guarded(|| handler.handle(&mut wr, &event).map(Some).map_err(|_| ()))
             }
             EvSpec::Other => guarded(|| handler.handle(&mut wr, &TerminalEvent::Wake).map(Some).map_err(|_| ())),
-            EvSpec::Failing(..) | EvSpec::Short(..) | EvSpec::Derive(..) => unreachable!(),
+            EvSpec::Failing(..) | EvSpec::Short(..) | EvSpec::Derive(..) | EvSpec::Quiet => unreachable!(),
         };
         let (handled, err) = match r {
             Ok(Ok(h)) => (h, false),
@@ -755,7 +774,8 @@ impl<'a> Runner<'a> {
 
         // ---- correspondence line -----------------------------------------------------------------
         let failing = hist.evs.iter().any(|e| e.budget().is_some());
-        let mut req = format!("c11 {} {}", if failing { "modelw" } else { "model" }, if hist.quiet { "q1" } else { "q0" });
+        let switches = hist.evs.iter().any(|e| matches!(e.base(), EvSpec::Quiet));
+        let mut req = format!("c11 {} {}", if failing || switches { "modelw" } else { "model" }, if hist.quiet { "q1" } else { "q0" });
         for (img, hash) in imgs.iter().zip(hashes.iter()) {
             let s = img.shape();
             let data: Vec<u8> = img.data().iter().flat_map(|c| c.to_rgba()).collect();
@@ -772,6 +792,7 @@ impl<'a> Runner<'a> {
             match ev {
                 EvSpec::Failing(..) | EvSpec::Short(..) => unreachable!(),
                 EvSpec::Derive(..) => {}
+                EvSpec::Quiet => req.push_str(" ev q"),
                 EvSpec::Draw(k, r, c) => req.push_str(&format!(" ev d {k} {r} {c}")),
                 EvSpec::Erase(k, Some((r, c))) => req.push_str(&format!(" ev e {k} {r} {c}")),
                 EvSpec::Erase(k, None) => req.push_str(&format!(" ev e {k} - -")),
@@ -1054,7 +1075,7 @@ impl<'a> Runner<'a> {
                         }
                     }
                 }
-                EvSpec::Other | EvSpec::Derive(..) => {}
+                EvSpec::Other | EvSpec::Derive(..) | EvSpec::Quiet => {}
                 EvSpec::Failing(..) | EvSpec::Short(..) => unreachable!(),
             }
         }
@@ -1065,7 +1086,7 @@ impl<'a> Runner<'a> {
             for (ev, st) in hist.evs.iter().zip(steps.iter()) {
                 let b = hex(&st.bytes);
                 match ev {
-                    EvSpec::Failing(..) | EvSpec::Short(..) | EvSpec::Derive(..) => {}
+                    EvSpec::Failing(..) | EvSpec::Short(..) | EvSpec::Derive(..) | EvSpec::Quiet => {}
                     EvSpec::Draw(k, r, c) => {
                         let ct = &contents[*k];
                         req.push_str(&format!(" D {} {} {} {r} {c} {b}", ct.0, ct.1, hex(&ct.2)));
@@ -1119,6 +1140,9 @@ impl<'a> Runner<'a> {
         }
         if hist.evs.iter().any(|e| matches!(e.base(), EvSpec::Derive(..))) {
             self.out.hist("has-crop-derived-during-history");
+        }
+        if switches {
+            self.out.hist("has-quiet-switch-mid-history");
         }
         if hist.imgs.len() >= 300 {
             self.out.hist("has-300+-images");
@@ -1774,6 +1798,10 @@ fn corpus() -> Vec<History> {
     v.push(History { quiet: false, imgs: vec![strided, copy], evs: vec![
         short(d(0, 2, 5)), short(d(1, 5, 2)), dv(0, 1, 3, 1, 4), short(d(2, 1, 1)), short(EvSpec::Resp(Some(0), true, true)),
         short(EvSpec::Resp(Some(3), true, true)), short(e(1, 2, 5)), short(EvSpec::Erase(2, None))] });
+    // quiet() applied to a handler that has already drawn: the record of transmitted images must survive
+    v.push(History { quiet: false, imgs: vec![gradient(2, 2), gradient(1, 3)], evs: vec![
+        d(0, 2, 5), EvSpec::Quiet, d(0, 5, 2), d(1, 1, 1), EvSpec::Resp(Some(0), true, true), EvSpec::Quiet, d(1, 3, 3),
+        e(0, 2, 5), EvSpec::Resp(Some(3), true, true), d(0, 2, 5)] });
     // 320 distinct images on one handler, then the first ones again
     v.push(long_history(320, 1));
     // twenty images, all drawn, then all drawn again: nothing may be transmitted a second time
@@ -1911,6 +1939,21 @@ fn main() {
                 gen_history(&mut rng, max)
             };
             let h = if i % 12 == 5 { with_failures(&mut rng, h) } else { h };
+            // the builder quiet() somewhere in the middle (once or twice)
+            let h = if i % 7 == 2 {
+                let mut h = h;
+                for _ in 0..(1 + rng.below(2)) {
+                    let at = rng.below(h.evs.len() as u64 + 1) as usize;
+                    // responses refer to earlier draw events by index: keep them pointing at the same events
+                    for e in h.evs.iter_mut() {
+                        shift_refs(e, at);
+                    }
+                    h.evs.insert(at, EvSpec::Quiet);
+                }
+                h
+            } else {
+                h
+            };
             // sinks that take a few bytes per call and interrupt every other call: same bytes must arrive
             let h = if i % 9 == 4 {
                 let n = 1 + rng.below(9) as usize;
